@@ -3,7 +3,15 @@
 Tie (harness/impl/access.py): worlds = one REAL repository (memory backend, sync or coroutine flavour) + a key graph built by
 the real `init` and chains of the real `add-key` (independent / shared / clone, KDF settings scrypt(n,r,p) / blake2b, passwords
 that collide across keys), then histories of snapshot / delete (names taken from what list-snapshots prints, names of other
-keys' snapshots, unknown names) / clean issued under ANY of the keys.  Compared with the Lean model:
+keys' snapshots, unknown names) / clean issued under ANY of the keys.  Every user works through a CLIENT with persistent state:
+a snapshot cache directory (none / one directory for all users — the CLI default on one machine / one per user / mixed) and a
+fresh Repository object per command or one long-lived object; the read-only commands observed after every step run through the
+same client or from a state-less machine — so destructive commands meet clients that are state-less, cold, warm, warm with a
+copy of ANOTHER key's snapshot of the same family (loaded earlier without its private part), after a snapshot-loading command
+under the very same key or not.  Compared with the Lean model:
+  * `access.client`   — every mutating command through a client with a cache directory vs `CacheCmd.stepC` on the abstracted
+                        directory (object map, error kind) and the directory afterwards vs `cacheAfterLoad` / `cacheAfterDelete`
+                        (a file the model does not account for is a broken tie);
   * `repo.step`       — object map after every command, error kind (different_key / not_available), uploaded chunk set,
                         mutation trace ∈ linearisations of the model plan;
   * `access.observe`  — after EVERY step, for EVERY user: `list-snapshots`, `list-files`, `restore` under random regexes and
@@ -13,7 +21,8 @@ keys' snapshots, unknown names) / clean issued under ANY of the keys.  Compared 
 Direct oracle (the property's own statement on the real repository, ground truth kept by `World`): a wrong password unlocks /
 the own one does not; a command of user v changes, creates or removes an object that does not carry v's family tag (config,
 strays, other families); v deletes a snapshot of another key (or the refusal is of the wrong kind, or a refused delete
-mutated the backend); after v's delete/clean a snapshot of another key no longer restores exactly with its owner's key; v's
+mutated the backend); after v's delete/clean — through whatever client state — a snapshot of another key no longer restores
+exactly with its owner's key (restored by a state-less client of the owner); v's
 listing shows a snapshot of another family, or details of another key's snapshot; v's list-files / restore shows data only
 another key's snapshots hold; a snapshot uploads a chunk that was already stored for its family.
 """
@@ -37,14 +46,23 @@ def nontrivial(log):
 
 def summarize(out, log):
     summary = {'enc': log['cfg']['enc'], 'users': [(x['kind'], x['base'], x['kdf'], x['password']) for x in log['cfg']['users']],
-               'chunking': log['cfg']['chunking'],
+               'chunking': log['cfg']['chunking'], 'clients': log['cfg'].get('clients'),
                'ops': [f'{st["user"][0]}:{st["kind"]}' + ('!' + st['error'] if st.get('error') else '') for st in log['steps']]}
     out.case(summary, nontrivial(log))
     out.count('enc' if log['cfg']['enc'] else 'plain')
     out.count('users:%d' % log['n_users'])
     for k in log['user_kinds'][1:]:
         out.count('key:' + k)
+    cl = log['cfg'].get('clients')
+    if cl is not None:
+        out.count('clients:cache-' + cl['topology'])
+        out.count('clients:' + ('one-repository-object-per-user' if cl['long_lived'] else 'fresh-object-per-command'))
+        out.count('clients:observed-' + ('through-the-client' if cl['observe_through_client'] else 'from-a-stateless-machine'))
     for st in log['steps']:
+        if st.get('client') and st['kind'] in ('delete', 'clean'):
+            # what the acting client remembered when it ran a destructive command, and whether a snapshot of ANOTHER key of its family was present
+            foreign = any(e[0][0] == 'snap' and e[1][0] == 'snap' and e[0][1] == st['user'][1] and e[1][3]['owner'] != st['user'][0] for e in st['store_before'])
+            out.count('destructive:' + st['kind'] + ':client-' + st['client']['state'] + (':shared-foreign-present' if foreign and log['cfg']['enc'] else ''))
         out.count('op:' + st['kind'] + (':' + st.get('target', '') if st['kind'] == 'delete' else '') + ('!' + st['error'] if st.get('error') else ''))
         for o in st['obs']:
             out.count('observe:' + o['kind'])
@@ -91,11 +109,14 @@ def run(out, drv, info):
     quick = out.tier == 'quick'
     out.rule = ('case = key graph (init + chain of add-key independent/shared/clone with base, KDF settings, password; or unencrypted with a clone) × '
                 'history of snapshot / delete (own printed names, other keys\' names, unknown names) / clean by any user, with every user\'s '
-                'list-snapshots / list-files / restore observed after every step; plus all key graphs of ≤ 2 add-keys (quick) / ≤ 3 (thorough) '
+                'list-snapshots / list-files / restore observed after every step × client state (cache directory: none / one for all users / '
+                'per user / mixed; one Repository object per command or per user; observations through the same client or from a state-less '
+                'machine); plus all key graphs of ≤ 2 add-keys (quick) / ≤ 3 (thorough) '
                 'with every (key, password) pairing; non-trivial = ≥ 2 different keys with ≥ 1 snapshot each and a command by one key while a '
                 'snapshot of another key is present (key-graph-only cases: ≥ 2 different keys); distinct = hash of the case summary')
     out.assumptions = ['ideal cryptography: MAC/AEAD/KDF are injective and unforgeable (family = (shared key, MAC key, chunker key); a name determines (family, content))',
                        'WF: every stored object is what its name says (damaged / substituted objects are C04)',
+                       'client state: cache directories are written by replicat only (tampered / torn entries are C18); ideal hash for cached copies (Agree)',
                        'a hand-made key file with a plaintext private section is outside "key graphs built by init and add-key" (Lean example in C06.lean)',
                        'CPython, json, cryptography, hashlib — modelled, not verified']
     n_worlds, n_ops = (260, 10) if quick else (1400, 14)
@@ -149,7 +170,8 @@ def replay(path, drv):
             print('the world did not finish:', log)
             return 1
         print('cfg', log['cfg'])
-        print('ops', [f'{st["user"]}:{st["kind"]}' + ('!' + st['error'] if st.get('error') else '') for st in log['steps']])
+        print('ops', [f'{st["user"]}:{st["kind"]}' + ('!' + st['error'] if st.get('error') else '') + ('@' + st['client']['state'] if st.get('client') else '')
+                      for st in log['steps']])
         bad = 0
         for p, sig, what, extra in log['violations']:
             print('violation', p, sig, what)
